@@ -78,7 +78,7 @@ def discharge(job):
     backend = "z3"
     total = t
     if r == "unknown":
-        for seed in ((7, 31) if timeout_ms > 20000 else ()):
+        for seed in (7, 31):  # nonlinear queries are sensitive to symbol names / seeds: a timeout is retried before cvc5 is asked
             r2, t2, model2, reason2 = run_z3(smt2, timeout_ms, seed)
             total += t2
             if r2 != "unknown":
